@@ -48,14 +48,9 @@ structure Inv (P : Progs) (s : State) : Prop where
     th.a.cl = true → th'.a.cl = true → th.w = th'.w → t = t'
   mtab : ∀ e ∈ s.mtab, closedOf s e.owner = false ∨ ClW s e.owner (fun a => !a.rm)
   static : ∀ e ∈ s.static, closedOf s e.owner = false ∨ ClW s e.owner (fun a => !a.rs)
-  routes : ∀ k e, s.routes k = some e → closedOf s e.owner = false ∨ ClW s e.owner (fun a => !a.rr)
   ownM : ∀ e ∈ s.mtab, nameOf s e.owner = some e.desc.name
-  ownR : ∀ k e, s.routes k = some e → nameOf s e.owner = some e.desc.name
-  cover : ∀ k e, s.routes k = some e → k ∈ s.svcRoutes e.desc.name ∨
-    ∃ t th, s.threads t = some th ∧ th.a.mid = true ∧ th.desc.name = e.desc.name ∧ k ∈ th.present
   cr : ∀ w ∈ s.closeRet, ClW s w (fun a => a.cleaned P.svc)
   kindP : P.svc = true → s.mtab = [] ∧ s.static = []
-  kindS : P.svc = false → ∀ k, s.routes k = none
   fresh : ∀ w, s.nextW ≤ w → s.watchers w = none
 
 theorem inv_init (P : Progs) : Inv P init := by
@@ -90,10 +85,7 @@ theorem inv_setThread {P : Progs} {s : State} {t : Tid} {th th' : Thread} (h : I
     (hop : th'.op = th.op) (hcl : th'.a.cl = th.a.cl)
     (hrm : th.a.cl = true → (th'.a.rm = true → th.a.rm = true) ∨ ∀ e ∈ s.mtab, e.owner ≠ th.w)
     (hrs : th.a.cl = true → (th'.a.rs = true → th.a.rs = true) ∨ ∀ e ∈ s.static, e.owner ≠ th.w)
-    (hrr : th.a.cl = true → (th'.a.rr = true → th.a.rr = true) ∨ ∀ k e, s.routes k = some e → e.owner ≠ th.w)
-    (hcr : th.a.cl = true → th.a.cleaned P.svc = true → th'.a.cleaned P.svc = true)
-    (hcov : ∀ k e, s.routes k = some e → th.a.mid = true → th.desc.name = e.desc.name → k ∈ th.present →
-      k ∈ s.svcRoutes e.desc.name ∨ (th'.a.mid = true ∧ k ∈ th'.present)) :
+    (hcr : th.a.cl = true → th.a.cleaned P.svc = true → th'.a.cleaned P.svc = true) :
     Inv P (setThread s t th') := by
   have hw : th'.w = th.w := by simp [Thread.w, hop]
   have hd : th'.desc = th.desc := by simp [Thread.desc, hop]
@@ -138,32 +130,7 @@ theorem inv_setThread {P : Progs} {s : State} {t : Tid} {th th' : Thread} (h : I
             | true => rw [h2 hx] at hp0; cases hp0⟩
         · exact absurd hw0.symm (h2 e he)
       · exact ⟨t0, th0, by simp [setThread, upd, e0]; exact h0, hw0, hc0, hp0⟩
-  · intro k e he
-    rcases h.routes k e he with h1 | h1
-    · left; exact h1
-    · right
-      obtain ⟨t0, th0, h0, hw0, hc0, hp0⟩ := h1
-      by_cases e0 : t0 = t
-      · subst e0; rw [ht] at h0; cases h0
-        rcases hrr hc0 with h2 | h2
-        · exact ⟨t0, th', by simp [setThread], hw ▸ hw0, hcl ▸ hc0, by
-            simp only [Bool.not_eq_eq_eq_not, Bool.not_true] at hp0 ⊢
-            cases hx : th'.a.rr with
-            | false => rfl
-            | true => rw [h2 hx] at hp0; cases hp0⟩
-        · exact absurd hw0.symm (h2 k e he)
-      · exact ⟨t0, th0, by simp [setThread, upd, e0]; exact h0, hw0, hc0, hp0⟩
   · exact h.ownM
-  · exact h.ownR
-  · intro k e he
-    rcases h.cover k e he with h1 | ⟨t0, th0, h0, m0, d0, p0⟩
-    · left; exact h1
-    · by_cases e0 : t0 = t
-      · subst e0; rw [ht] at h0; cases h0
-        rcases hcov k e he m0 d0 p0 with h2 | ⟨h2, h3⟩
-        · left; exact h2
-        · right; exact ⟨t0, th', by simp [setThread], h2, by rw [hd]; exact d0, h3⟩
-      · right; exact ⟨t0, th0, by simp [setThread, upd, e0]; exact h0, m0, d0, p0⟩
   · intro w hwc
     obtain ⟨t0, th0, h0, hw0, hc0, hp0⟩ := h.cr w hwc
     by_cases e0 : t0 = t
@@ -171,7 +138,6 @@ theorem inv_setThread {P : Progs} {s : State} {t : Tid} {th th' : Thread} (h : I
       exact ⟨t0, th', by simp [setThread], hw ▸ hw0, hcl ▸ hc0, hcr hc0 hp0⟩
     · exact ⟨t0, th0, by simp [setThread, upd, e0]; exact h0, hw0, hc0, hp0⟩
   · exact h.kindP
-  · exact h.kindS
   · exact h.fresh
 
 /-- flags-only special case: nothing any other part of the invariant looks at changes -/
@@ -181,22 +147,20 @@ theorem inv_setThread_simple {P : Progs} {s : State} {t : Tid} {th th' : Thread}
     (hrr : th'.a.rr = th.a.rr) (hmid : th'.a.mid = th.a.mid) (hpres : th'.present = th.present)
     (hsr : th.a.sr = true → th'.a.sr = true) :
     Inv P (setThread s t th') := by
-  refine inv_setThread h ht hT hop hcl ?_ ?_ ?_ ?_ ?_
+  refine inv_setThread h ht hT hop hcl ?_ ?_ ?_
   · intro _; left; rw [hrm]; exact id
   · intro _; left; rw [hrs]; exact id
-  · intro _; left; rw [hrr]; exact id
   · intro hc hcln
     simp only [A.cleaned, hcl, hrm, hrs, hrr, hc, Bool.not_true, Bool.false_or, Bool.and_eq_true] at hcln ⊢
     exact ⟨hcln.1, hsr hcln.2⟩
-  · intro k e _ m _ pk; right; exact ⟨hmid ▸ m, hpres ▸ pk⟩
 
 theorem inv_wset {P : Progs} {s : State} (h : Inv P s) (x : List Name) : Inv P { s with wset := x } :=
-  ⟨fun t th h0 => (h.th t th h0).frame rfl rfl, h.clU, h.mtab, h.static, h.routes, h.ownM, h.ownR, h.cover, h.cr, h.kindP, h.kindS, h.fresh⟩
+  ⟨fun t th h0 => (h.th t th h0).frame rfl rfl, h.clU, h.mtab, h.static, h.ownM, h.cr, h.kindP, h.fresh⟩
 
 theorem inv_mtab {P : Progs} {s : State} (h : Inv P s) (m' : List Entry)
     (h1 : ∀ e ∈ m', e ∈ s.mtab ∨ (closedOf s e.owner = false ∧ nameOf s e.owner = some e.desc.name))
     (hk : P.svc = true → m' = []) : Inv P { s with mtab := m' } := by
-  refine ⟨fun t th h0 => (h.th t th h0).frame rfl rfl, h.clU, ?_, h.static, h.routes, ?_, h.ownR, h.cover, h.cr, ?_, h.kindS, h.fresh⟩
+  refine ⟨fun t th h0 => (h.th t th h0).frame rfl rfl, h.clU, ?_, h.static, ?_, h.cr, ?_, h.fresh⟩
   · intro e he
     rcases h1 e he with h2 | ⟨h2, _⟩
     · exact h.mtab e h2
@@ -210,33 +174,23 @@ theorem inv_mtab {P : Progs} {s : State} (h : Inv P s) (m' : List Entry)
 theorem inv_static {P : Progs} {s : State} (h : Inv P s) (x : List Entry)
     (h1 : ∀ e ∈ x, closedOf s e.owner = false ∨ ClW s e.owner (fun a => !a.rs))
     (hk : P.svc = true → x = []) : Inv P { s with static := x } :=
-  ⟨fun t th h0 => (h.th t th h0).frame rfl rfl, h.clU, h.mtab, h1, h.routes, h.ownM, h.ownR, h.cover, h.cr, fun hs => ⟨(h.kindP hs).1, hk hs⟩, h.kindS, h.fresh⟩
+  ⟨fun t th h0 => (h.th t th h0).frame rfl rfl, h.clU, h.mtab, h1, h.ownM, h.cr, fun hs => ⟨(h.kindP hs).1, hk hs⟩, h.fresh⟩
 
-theorem inv_routes {P : Progs} {s : State} (h : Inv P s) (r' : Svc → Option Entry) (v' : Name → List Svc)
-    (h1 : ∀ k e, r' k = some e → s.routes k = some e ∨ (closedOf s e.owner = false ∧ nameOf s e.owner = some e.desc.name))
-    (h2 : ∀ k e, r' k = some e → k ∈ v' e.desc.name ∨
-      ∃ t th, s.threads t = some th ∧ th.a.mid = true ∧ th.desc.name = e.desc.name ∧ k ∈ th.present)
-    (hk : P.svc = false → ∀ k, r' k = none) : Inv P { s with routes := r', svcRoutes := v' } := by
-  refine ⟨fun t th h0 => (h.th t th h0).frame rfl rfl, h.clU, h.mtab, h.static, ?_, h.ownM, ?_, h2, h.cr, h.kindP, hk, h.fresh⟩
-  · intro k e he
-    rcases h1 k e he with h3 | ⟨h3, _⟩
-    · exact h.routes k e h3
-    · left; exact h3
-  · intro k e he
-    rcases h1 k e he with h3 | ⟨_, h3⟩
-    · exact h.ownR k e h3
-    · exact h3
+/-- the service tables are not mentioned by this layer of the invariant -/
+theorem inv_svcTables {P : Progs} {s : State} (h : Inv P s) (r' : Svc → Option Entry) (v' : Name → List Svc)
+    (w' : Svc → List Entry) : Inv P { s with routes := r', svcRoutes := v', waiting := w' } :=
+  ⟨fun t th h0 => (h.th t th h0).frame rfl rfl, h.clU, h.mtab, h.static, h.ownM, h.cr, h.kindP, h.fresh⟩
 
 theorem inv_tmu {P : Progs} {s : State} (h : Inv P s) (x : Option Tid)
     (hx : ∀ t th, s.threads t = some th → th.a.ht = true → x = some t) : Inv P { s with tmu := x } := by
-  refine ⟨?_, h.clU, h.mtab, h.static, h.routes, h.ownM, h.ownR, h.cover, h.cr, h.kindP, h.kindS, h.fresh⟩
+  refine ⟨?_, h.clU, h.mtab, h.static, h.ownM, h.cr, h.kindP, h.fresh⟩
   intro t th h0
   have := h.th t th h0
   exact ⟨this.wf, this.hw, hx t th h0, this.chk, this.cl, this.rsrm, this.mid, this.nc, this.sm⟩
 
 theorem inv_closeRet {P : Progs} {s : State} (h : Inv P s) (w : Wid)
     (hw : ClW s w (fun a => a.cleaned P.svc)) : Inv P { s with closeRet := w :: s.closeRet } := by
-  refine ⟨fun t th h0 => (h.th t th h0).frame rfl rfl, h.clU, h.mtab, h.static, h.routes, h.ownM, h.ownR, h.cover, ?_, h.kindP, h.kindS, h.fresh⟩
+  refine ⟨fun t th h0 => (h.th t th h0).frame rfl rfl, h.clU, h.mtab, h.static, h.ownM, ?_, h.kindP, h.fresh⟩
   intro w' hw'
   rcases List.mem_cons.1 hw' with rfl | h2
   · exact hw
@@ -257,7 +211,7 @@ theorem inv_mu {P : Progs} {s : State} {w : Wid} {wt : Watcher} (x : Option Tid)
     intro w'; by_cases e : w' = w
     · subst e; simp [nameOf, upd, hw]
     · simp [nameOf, upd, e]
-  refine ⟨?_, h.clU, ?_, ?_, ?_, ?_, ?_, h.cover, h.cr, h.kindP, h.kindS, ?_⟩
+  refine ⟨?_, h.clU, ?_, ?_, ?_, h.cr, h.kindP, ?_⟩
   · intro t th h0
     have i := h.th t th h0
     refine ⟨i.wf, ?_, i.ht, ?_, ?_, i.rsrm, i.mid, ?_, i.sm⟩
@@ -271,9 +225,7 @@ theorem inv_mu {P : Progs} {s : State} {w : Wid} {wt : Watcher} (x : Option Tid)
     · rw [hn]; exact i.nc
   · intro e he; rw [hc]; exact h.mtab e he
   · intro e he; rw [hc]; exact h.static e he
-  · intro k e he; rw [hc]; exact h.routes k e he
   · intro e he; rw [hn]; exact h.ownM e he
-  · intro k e he; rw [hn]; exact h.ownR k e he
   · intro w' hw'
     by_cases e : w' = w
     · subst e; rw [h.fresh w' hw'] at hw; cases hw
@@ -291,7 +243,7 @@ theorem inv_newWatcher {P : Progs} {s : State} (n : Name) (h : Inv P s) :
     intro w' x hx
     have : w' ≠ s.nextW := by intro e; subst e; simp [nameOf, hf] at hx
     simpa [nameOf, upd, this] using hx
-  refine ⟨?_, h.clU, ?_, ?_, ?_, ?_, ?_, h.cover, h.cr, h.kindP, h.kindS, ?_⟩
+  refine ⟨?_, h.clU, ?_, ?_, ?_, h.cr, h.kindP, ?_⟩
   · intro t th h0
     have i := h.th t th h0
     refine ⟨i.wf, ?_, i.ht, ?_, ?_, i.rsrm, i.mid, ?_, i.sm⟩
@@ -304,9 +256,7 @@ theorem inv_newWatcher {P : Progs} {s : State} (n : Name) (h : Inv P s) :
     · intro hh; exact hn _ _ (i.nc hh)
   · intro e he; rw [hc]; exact h.mtab e he
   · intro e he; rw [hc]; exact h.static e he
-  · intro k e he; rw [hc]; exact h.routes k e he
   · intro e he; exact hn _ _ (h.ownM e he)
-  · intro k e he; exact hn _ _ (h.ownR k e he)
   · intro w' hw'
     have hw'' : s.nextW + 1 ≤ w' := hw'
     have : w' ≠ s.nextW := Nat.ne_of_gt hw''
@@ -321,7 +271,7 @@ theorem inv_spawn {P : Progs} (hP : P.wf = true) {s : State} {t : Tid} (op : Op)
     intro t0 th0 h0; simp [setThread, upd, hne t0 th0 h0]; exact h0
   have clw : ∀ w p, ClW s w p → ClW (setThread s t { op := op, code := P.of op }) w p := by
     rintro w p ⟨t0, th0, h0, r⟩; exact ⟨t0, th0, keep t0 th0 h0, r⟩
-  refine ⟨?_, ?_, ?_, ?_, ?_, h.ownM, h.ownR, ?_, ?_, h.kindP, h.kindS, h.fresh⟩
+  refine ⟨?_, ?_, ?_, ?_, h.ownM, ?_, h.kindP, h.fresh⟩
   · intro t0 th0 h0
     rcases upd_some_cases h0 with ⟨rfl, rfl⟩ | ⟨ne, h0'⟩
     · refine ⟨?_, by simp, by simp, by simp, by simp, by simp, by simp, by simp, by simp⟩
@@ -337,11 +287,6 @@ theorem inv_spawn {P : Progs} (hP : P.wf = true) {s : State} {t : Tid} (op : Op)
       · exact h.clU _ _ _ _ h0' h1' c0 c1 hw01
   · intro e he; exact (h.mtab e he).imp id (clw _ _)
   · intro e he; exact (h.static e he).imp id (clw _ _)
-  · intro k e he; exact (h.routes k e he).imp id (clw _ _)
-  · intro k e he
-    rcases h.cover k e he with h1 | ⟨t0, th0, h0, r⟩
-    · left; exact h1
-    · right; exact ⟨t0, th0, keep t0 th0 h0, r⟩
   · intro w hw; exact clw _ _ (h.cr w hw)
 
 /-- `closed.CompareAndSwap(false, true)` succeeding, executed while holding the watcher mutex -/
@@ -383,7 +328,7 @@ theorem inv_cas {P : Progs} {s : State} {t : Tid} {th th' : Thread} {wt : Watche
     · rcases h1 with h1 | h1
       · left; rw [hc o e]; exact h1
       · right; exact keepClW _ _ h1
-  refine ⟨?_, ?_, ?_, ?_, ?_, ?_, ?_, ?_, ?_, h.kindP, h.kindS, ?_⟩
+  refine ⟨?_, ?_, ?_, ?_, ?_, ?_, h.kindP, ?_⟩
   · intro t0 th0 h0
     rcases upd_some_cases h0 with ⟨rfl, rfl⟩ | ⟨ne, h0'⟩
     · refine ⟨hwf, ?_, ?_, by simp [a2], ?_, by simp [a4], ?_, ?_, hsm⟩
@@ -427,17 +372,7 @@ theorem inv_cas {P : Progs} {s : State} {t : Tid} {th th' : Thread} {wt : Watche
     · exact h.clU _ _ _ _ h0' h1' c0 c1 hw01
   · intro e he; exact ent _ _ (by simp [a3]) (h.mtab e he)
   · intro e he; exact ent _ _ (by simp [a4]) (h.static e he)
-  · intro k e he; exact ent _ _ (by simp [a5]) (h.routes k e he)
   · intro e he; rw [hn]; exact h.ownM e he
-  · intro k e he; rw [hn]; exact h.ownR k e he
-  · intro k e he
-    rcases h.cover k e he with h1 | ⟨t0, th0, h0, m0, d0, p0⟩
-    · left; exact h1
-    · right
-      by_cases e0 : t0 = t
-      · subst e0; rw [ht] at h0; cases h0
-        exact ⟨t0, th', by simp [setThread], a8 ▸ m0, hd ▸ d0, a10 ▸ p0⟩
-      · exact ⟨t0, th0, by simp [setThread, upd, e0]; exact h0, m0, d0, p0⟩
   · intro w hwc; exact keepClW _ _ (h.cr w hwc)
   · intro w' hw'
     by_cases e : w' = th.w
